@@ -2,11 +2,13 @@
 import json, os
 from .props import REGISTRY
 from . import build
+from .levels import LEVELS, TIE
 
 ALL = ['C%02d' % i for i in range(1, 21)]
 
 def main():
     hook_commits = ['5bddae4 verif hook: deterministic frame mask under --cfg tungstenite_verif']
+    fix_commits = ['8930ef2', 'd51c045', '59a4389', 'b6dc9e9', '163f938', '6a77aa2', '50d46f1']
     checks = []
     for pid in ALL:
         if pid not in REGISTRY or not all(os.path.exists(os.path.join(build.COQ, 'props', x + '.v')) for x in getattr(REGISTRY[pid], 'props_files', [pid])):
@@ -19,8 +21,8 @@ def main():
             'evidence_file': '/verif/evidence/%s.json' % pid,
             'replay_cmd_template': './check replay {path}',
             'engine': p.engine_desc,
-            'level_claimed': {'category': 'proof', 'text': p.level_text, 'design_ref': 'DESIGN.md §6 ' + pid},
-            'level_note': p.level_note,
+            'level_claimed': {'category': 'proof', 'text': LEVELS[pid][0] + ' ' + TIE, 'design_ref': 'DESIGN.md §6 ' + pid + ', §11'},
+            'level_note': LEVELS[pid][1] + ' Trusted base: Coq 8.16.1 kernel (no axioms: every theorem prints Closed under the global context), the hand-written model, extraction (ExtrOcamlBasic) + driver, harness, generators.',
             'technique': p.technique,
         })
     na = [{'property_id': pid, 'reason': 'not yet claimed: model/theorems for this property are not finished in this revision (see DESIGN.md §11 status)'}
@@ -42,7 +44,7 @@ def main():
         ],
         'checks': checks,
         'not_applicable': na,
-        'notes': 'Technique: machine-checked proof in Coq about a hand-written executable model; the tie to /repo is a differential correspondence check run on every invocation. See DESIGN.md.',
+        'notes': 'fix: commits in /repo (genuine defects found by the checks, see known_findings.json): ' + ', '.join(fix_commits) + '. Technique: machine-checked proof in Coq about a hand-written executable model; the tie to /repo is a differential correspondence check run on every invocation. See DESIGN.md.',
     }
     with open(os.path.join(build.ROOT, 'MANIFEST.json'), 'w') as f:
         json.dump(m, f, indent=1)
